@@ -1,6 +1,38 @@
--- shard 24 of the closeness / tick-gap sweep (C06 (c), (e)): |tick| in [786432, 819200)
+-- shard 24 of the closeness / tick-gap sweep (C06 (c), (e)): |tick| in [786432, 819200), 16 blocks of 2^11
 import Proofs.Lemmas.ClosePred
 namespace Demeter.TickClose
 set_option maxRecDepth 100000 in
-theorem close_shard_24 : chkN closeSweepPred 786432 shardBits = true := by decide +kernel
+theorem close_blk_786432 : chkN closeSweepPred 786432 11 = true := by decide +kernel
+set_option maxRecDepth 100000 in
+theorem close_blk_788480 : chkN closeSweepPred 788480 11 = true := by decide +kernel
+set_option maxRecDepth 100000 in
+theorem close_blk_790528 : chkN closeSweepPred 790528 11 = true := by decide +kernel
+set_option maxRecDepth 100000 in
+theorem close_blk_792576 : chkN closeSweepPred 792576 11 = true := by decide +kernel
+set_option maxRecDepth 100000 in
+theorem close_blk_794624 : chkN closeSweepPred 794624 11 = true := by decide +kernel
+set_option maxRecDepth 100000 in
+theorem close_blk_796672 : chkN closeSweepPred 796672 11 = true := by decide +kernel
+set_option maxRecDepth 100000 in
+theorem close_blk_798720 : chkN closeSweepPred 798720 11 = true := by decide +kernel
+set_option maxRecDepth 100000 in
+theorem close_blk_800768 : chkN closeSweepPred 800768 11 = true := by decide +kernel
+set_option maxRecDepth 100000 in
+theorem close_blk_802816 : chkN closeSweepPred 802816 11 = true := by decide +kernel
+set_option maxRecDepth 100000 in
+theorem close_blk_804864 : chkN closeSweepPred 804864 11 = true := by decide +kernel
+set_option maxRecDepth 100000 in
+theorem close_blk_806912 : chkN closeSweepPred 806912 11 = true := by decide +kernel
+set_option maxRecDepth 100000 in
+theorem close_blk_808960 : chkN closeSweepPred 808960 11 = true := by decide +kernel
+set_option maxRecDepth 100000 in
+theorem close_blk_811008 : chkN closeSweepPred 811008 11 = true := by decide +kernel
+set_option maxRecDepth 100000 in
+theorem close_blk_813056 : chkN closeSweepPred 813056 11 = true := by decide +kernel
+set_option maxRecDepth 100000 in
+theorem close_blk_815104 : chkN closeSweepPred 815104 11 = true := by decide +kernel
+set_option maxRecDepth 100000 in
+theorem close_blk_817152 : chkN closeSweepPred 817152 11 = true := by decide +kernel
+theorem close_shard_24 : chkN closeSweepPred 786432 shardBits = true :=
+  (chkN_join _ 786432 14 (chkN_join _ 786432 13 (chkN_join _ 786432 12 (chkN_join _ 786432 11 close_blk_786432 close_blk_788480) (chkN_join _ 790528 11 close_blk_790528 close_blk_792576)) (chkN_join _ 794624 12 (chkN_join _ 794624 11 close_blk_794624 close_blk_796672) (chkN_join _ 798720 11 close_blk_798720 close_blk_800768))) (chkN_join _ 802816 13 (chkN_join _ 802816 12 (chkN_join _ 802816 11 close_blk_802816 close_blk_804864) (chkN_join _ 806912 11 close_blk_806912 close_blk_808960)) (chkN_join _ 811008 12 (chkN_join _ 811008 11 close_blk_811008 close_blk_813056) (chkN_join _ 815104 11 close_blk_815104 close_blk_817152))))
 end Demeter.TickClose
